@@ -10,6 +10,17 @@ use serde::{Deserialize, Serialize};
 
 thread_local! {
     static LAST_PANIC: RefCell<Option<String>> = const { RefCell::new(None) };
+    static HEARTBEAT: RefCell<Option<std::sync::Arc<Mutex<Instant>>>> = const { RefCell::new(None) };
+}
+
+/// Tells the watchdog that this thread is making progress (a C11 scenario is thousands of
+/// executions; the per-run timeout is meant per execution).
+pub fn heartbeat() {
+    HEARTBEAT.with(|h| {
+        if let Some(m) = &*h.borrow() {
+            *m.lock().unwrap() = Instant::now();
+        }
+    });
 }
 
 static HOOK: Once = Once::new();
@@ -140,7 +151,7 @@ where
     let stop = AtomicBool::new(false);
     let start = Instant::now();
     let current: Vec<AtomicU64> = (0..batch.threads).map(|_| AtomicU64::new(u64::MAX)).collect();
-    let started_at: Vec<Mutex<Instant>> = (0..batch.threads).map(|_| Mutex::new(start)).collect();
+    let started_at: Vec<std::sync::Arc<Mutex<Instant>>> = (0..batch.threads).map(|_| std::sync::Arc::new(Mutex::new(start))).collect();
     let done = AtomicU64::new(0);
     let finished_threads = AtomicU64::new(0);
     let hung: Mutex<Vec<u64>> = Mutex::new(Vec::new());
@@ -161,6 +172,7 @@ where
                     .stack_size(256 << 20)
                     .spawn_scoped(scope, move || {
                         let mut acc = make_acc();
+                        HEARTBEAT.with(|h| *h.borrow_mut() = Some(started_at[tid].clone()));
                         loop {
                             if stop.load(Ordering::Relaxed) {
                                 break;
